@@ -66,6 +66,15 @@ func Consistent(rels []Rel, unsigned map[string]bool) bool {
 			extra = append(extra, Rel{base, "<", t})
 		}
 	}
+	// freshly allocated objects, closures and channels are not nil
+	for _, t := range append([]string{}, terms...) {
+		if strings.HasPrefix(t, "new:") || strings.HasPrefix(t, "&") || strings.HasPrefix(t, "closure:") || strings.HasPrefix(t, "makechan") || strings.HasPrefix(t, "local:") && false {
+			if !strings.ContainsAny(t[1:], ".[@") {
+				add("nil")
+				extra = append(extra, Rel{t, "!=", "nil"})
+			}
+		}
+	}
 	var consts []string
 	for _, t := range terms {
 		if _, ok := constVal(t); ok && isConstStr(t) {
